@@ -1,7 +1,7 @@
 (* Evaluators used by the generated cases files: each maps a case input to the projection [val]
    that the harness computed from the implementation's behaviour. *)
 From Coq Require Import String List ZArith NArith Bool.
-From Orbiter Require Import Lib.Str Lib.Res Lib.Val Gen.Constants Model.Ids.
+From Orbiter Require Export Lib.Str Lib.Res Lib.Val Gen.Constants Model.Ids.
 Import ListNotations.
 Open Scope string_scope.
 Open Scope Z_scope.
@@ -28,4 +28,44 @@ Definition run_id (c : id_case) : val :=
   | IEnums name number =>
       VL [VO VZ (protocol_from_string name); VO VZ (action_from_string name);
           VB (protocol_valid number); VB (action_valid number)]
+  end.
+
+(* ---------- fees (C04) ---------- *)
+From Orbiter Require Export Model.Env Model.Fee Model.Denom.
+
+Record fee_case := {
+  fc_bech32 : list (string * option string);
+  fc_ints : list (string * option Z);
+  fc_amount : Z;
+  fc_infos : list (option fee_info);
+}.
+
+Definition v_credits (l : list (string * Z)) : val := VLs (fun p => VL [VS (fst p); VZ (snd p)]) l.
+
+(* projection: class (0 ok / 1 error / 2 panic), ordered credits, forwarded amount *)
+Definition run_fee (c : fee_case) : val :=
+  let e := env_of (fc_bech32 c) (fc_ints c) in
+  match fee_plan e (fc_amount c) (fc_infos c) with
+  | Ok (credits, fwd) => VL [VZ 0; v_credits credits; VZ fwd]
+  | Err _ => VL [VZ 1]
+  | Panic _ => VL [VZ 2]
+  end.
+
+(* ---------- denominations (C16) ---------- *)
+Inductive denom_case :=
+| DRecover (denom port chan : string)
+| DValid (denom : string)
+| DTrace (denom : string).
+
+Definition v_res_string (r : res string) : val :=
+  match r with Ok s => VL [VZ 0; VS s] | Err _ => VL [VZ 1] | Panic _ => VL [VZ 2] end.
+
+Definition run_denom (c : denom_case) : val :=
+  match c with
+  | DRecover d p ch =>
+      VL [v_res_string (recover_native_denom d p ch);
+          match ics20_credit_denom d p ch with
+          | Unescrow x => VL [VZ 0; VS x] | UnescrowHashed => VL [VZ 1] | MintVoucher => VL [VZ 2] end]
+  | DValid d => VB (valid_denom d)
+  | DTrace d => VLs VS (trace_path d)
   end.
